@@ -49,9 +49,22 @@ pub struct Rep {
 }
 
 impl Rep {
+    /// How the reply is spelled: a conforming peer may write the members of the envelope in any order and
+    /// put insignificant white space between the tokens. Derived from the tag, so that every script mixes
+    /// the spellings (about half of the replies are written the way zlink's own server writes them).
+    pub fn style(&self) -> u32 {
+        (self.tag.wrapping_mul(2654435761) >> 9) % 6
+    }
     pub fn bytes(&self) -> Vec<u8> {
+        let st = self.style();
         let mut v = if self.is_error {
-            format!("{{\"error\":\"c.Fail\",\"parameters\":{{\"tag\":{}}}}}", self.tag).into_bytes()
+            match st {
+                3 => format!("{{\"parameters\":{{\"tag\":{}}},\"error\":\"c.Fail\"}}", self.tag),
+                4 => format!("{{ \"parameters\" : {{ \"tag\" : {} }} ,\n \"error\" : \"c.Fail\" }}", self.tag),
+                5 => format!(" {{\"error\":\"c.Fail\",\t\"parameters\":{{\"tag\":{}}}}} ", self.tag),
+                _ => format!("{{\"error\":\"c.Fail\",\"parameters\":{{\"tag\":{}}}}}", self.tag),
+            }
+            .into_bytes()
         } else if self.pad == BARE {
             // a success reply without parameters (progress tick, method without outputs)
             match self.continues {
@@ -60,11 +73,15 @@ impl Rep {
             }
             .into_bytes()
         } else {
-            let c = match self.continues {
-                None => String::new(),
-                Some(b) => format!(",\"continues\":{b}"),
-            };
-            format!("{{\"parameters\":{{\"tag\":{},\"text\":\"{}\"}}{}}}", self.tag, "t".repeat(self.pad), c).into_bytes()
+            let text = "t".repeat(self.pad);
+            match (self.continues, st) {
+                (None, 4) => format!("{{ \"parameters\" : {{ \"text\" : \"{}\" , \"tag\" : {} }} }}", text, self.tag),
+                (None, _) => format!("{{\"parameters\":{{\"tag\":{},\"text\":\"{}\"}}}}", self.tag, text),
+                (Some(b), 3) => format!("{{\"continues\":{b},\"parameters\":{{\"tag\":{},\"text\":\"{}\"}}}}", self.tag, text),
+                (Some(b), 4) => format!("{{ \"continues\" : {b} ,\r\n \"parameters\" : {{ \"text\" : \"{}\" , \"tag\" : {} }} }}", text, self.tag),
+                (Some(b), _) => format!("{{\"parameters\":{{\"tag\":{},\"text\":\"{}\"}},\"continues\":{b}}}", self.tag, text),
+            }
+            .into_bytes()
         };
         v.push(0);
         v
